@@ -133,13 +133,14 @@ def c03quiescent (o : Obs) (lastOnLive : RType → Option (List String)) : Optio
   | [] => none
 
 /-- C03: the interest set grows only by a missed lookup and shrinks only by eviction -/
-def c03change (pre o : Obs) (missed : Option (RType × String)) : Option String :=
+def c03change (pre o : Obs) (missed : Option (RType × String)) (evicted : Option (RType × String) := none) : Option String :=
   match RType.all.filter (fun rt =>
       let a := (pre.interest rt).getD []
       let b := (o.interest rt).getD []
       let added := b.filter (fun n => !a.contains n)
       let removed := a.filter (fun n => !b.contains n)
-      !(removed.isEmpty && (added.isEmpty || (match missed with | some (t, n) => t = rt && added = [n] | none => false)))) with
+      !((removed.isEmpty || (match evicted with | some (t, n) => t = rt && removed = [n] | none => false))
+        && (added.isEmpty || (match missed with | some (t, n) => t = rt && added = [n] | none => false)))) with
   | rt :: _ => some s!"C03.interest_changes_only: interest set of {repr rt} changed from {pre.interest rt} to {o.interest rt}"
   | [] => none
 
